@@ -113,5 +113,11 @@ def r3(ctx):
     ctx.check('handle_timer|flag-read-only', not [s for s, w in self_writes(t) if w == 'have_deny_rstr_response'], 'handle_timer modifies the deny marker')
 
 
-RULES = [r1, r2, r3]
-FLOORS = {'C11-R1': 9, 'C11-R2': 11, 'C11-R3': 2}
+def r4(ctx):
+    ctx.rule('C11-R4', 'a DENY/RSTR answer is recognised as such (and not as RATE, which handle_incoming tests first): the kiss classes of C09-R5 are disjoint')
+    from rules.C09 import kiss_classes
+    kiss_classes(ctx)
+
+
+RULES = [r1, r2, r3, r4]
+FLOORS = {'C11-R1': 9, 'C11-R2': 11, 'C11-R3': 2, 'C11-R4': 8}
